@@ -78,12 +78,12 @@ namespace {
         return s.substr(0, 1500);
     }
 
-    void run_threads(int nthreads, std::function<void(int)> body)
+    void run_threads(int nthreads, std::function<void(int)> body, bool last = true)
     {
         std::vector<std::thread> th;
         for (int t = 0; t < nthreads; t++) th.emplace_back([t, &body] { body(t); });
         for (auto& t : th) t.join();    // lock-free operations: nothing to wait for but the threads
-        sim_quiesce(2000000);
+        if (last) sim_quiesce(2000000);
     }
 
     // =============================================================================================
@@ -287,11 +287,15 @@ namespace {
     void run_backend(RunCtx& ctx, int which)
     {
         Rng r(mix_seed(ctx.seed, 172));
-        int nthreads = (int) ctx.params.set("c17.threads", r.range(1, 4));
+        // (one run in ten: more producer threads than the moodycamel queue's initial producer table has room for)
+        int nthreads = (int) ctx.params.set("c17.threads", r.chance(9, 10) ? r.range(1, 4) : r.range(17, 26));
+        // one run in four: two generations of threads on one queue (the second starts after the first has exited)
+        int const nwaves = (int) ctx.params.set("c17.thread_generations", r.chance(1, 4) ? 2 : 1);
         if (!ctx.program_from_replay)
         {
             Program p;
             int nops = (int) r.range(2, 40);
+            if (nthreads > 4) nops = (int) r.range((uint64_t) nthreads, 60);
             // backlog shape: a burst of pushes, a partial drain (so that the queue's internal block ring has been
             // rotated), then a backlog larger than the initial internal capacity (32 blocks of 32 elements for
             // the moodycamel queue), followed by ordinary traffic. v[2] = repeat count of an op (0: once).
@@ -316,8 +320,14 @@ namespace {
                 op.v[0] = (int64_t) r.below((uint64_t) nthreads);
                 op.v[1] = (int64_t) r.below(4);
                 if (r.chance(1, 12)) op.v[2] = (int64_t) r.range(2, 80);
+                if (nthreads > 4 && i < nthreads)
+                {
+                    op.v[0] = i;    // every thread enqueues at least once
+                    op.v[1] = (int64_t) r.below(2);
+                }
                 p.push_back(op);
             }
+            for (auto& op : p) op.v[3] = (int64_t) r.below((uint64_t) nwaves);
             ctx.program = p;
         }
         sim_config sc = draw_sim_config(ctx, 8000, FAULT_STALL);
@@ -326,17 +336,21 @@ namespace {
         static Backend q(8);
         Program const& prog = ctx.program;
         static int64_t next_token = 1;
-        run_threads(nthreads, [&prog](int me) {
+        for (int wave = 0; wave < nwaves; wave++)
+        run_threads(nthreads, [&prog, wave, nwaves, many_threads = nthreads > 4](int me) {
             for (auto const& op : prog)
             {
                 if (op.v[0] != me) continue;
+                if (nwaves > 1 && (op.v[3] & 1) != wave) continue;
                 int64_t const reps = op.v[2] > 1 ? op.v[2] : 1;
                 for (int64_t rep = 0; rep < reps; rep++)
                 {
                 // all but the last three repetitions of a burst run without preemption (a legal schedule: the
                 // operations are lock-free) so that big backlogs stay affordable
                 std::optional<AtomicSection> unpreempted;
-                if (rep + 3 < reps) unpreempted.emplace();
+                // (not with many producer threads: there the moodycamel queue grows its producer table, and an enqueue
+                // that meets a table being grown by a preempted thread waits for it)
+                if (rep + 3 < reps && !many_threads) unpreempted.emplace();
                 HOp h{me, (int) (op.v[1] & 3), 0, false, 0, 0, 0};
                 {
                     AtomicSection a;
@@ -369,7 +383,7 @@ namespace {
                 H.push_back(h);
                 }
             }
-        });
+        }, wave + 1 == nwaves);
         std::set<int64_t> pushed, popped;
         for (auto& o : H)
             if (o.kind < 2)
@@ -384,7 +398,9 @@ namespace {
                 VH_CHECK(popped.insert(o.result).second, "C17.backend.duplicate", "element %lld popped twice", (long long) o.result);
             }
         // single-threaded: the stated order of each back-end
-        if (nthreads == 1)
+        // (one thread ever: two generations of one thread each are two producers, between which the moodycamel
+        // queue keeps no order)
+        if (nthreads == 1 && nwaves == 1)
         {
             std::deque<int64_t> m;
             for (auto& o : H)
@@ -447,6 +463,8 @@ namespace {
         int64_t* v = nullptr;
         VH_CHECK(!q.pop(v, false) && !q.pop(v, true), "C17.backend.invented", "queue not empty after the drain");
         probe(sfmt("backend%d.%s", which, nthreads == 1 ? "sequential" : "concurrent").c_str());
+        if (nthreads > 16) probe("backend.more_than_16_producer_threads");
+        if (nwaves > 1) probe("backend.two_thread_generations");
         focus_report();
     }
 
